@@ -245,13 +245,30 @@ def check_chain(ctx, fn, base_url, chain, optsets=OPTSETS):
             ctx.count("class-compared")
             if ov != ob:
                 if prev_ok:
-                    ctx.viol("C04:%s:%s" % (name, oname), {"base": prev_u, "variant": uv, "transformation": name, "options": oname}, {"out_base": ob, "out_variant": ov})
+                    mech = "C04:%s:%s" % (name, oname)
+                    if hint_read_differently(prev_u, uv):
+                        # one spelling shows a redirection hint to infer_redirection (which reads the raw string), the other does not
+                        mech = "C04:%s:redirect-hint-read-on-the-raw-spelling" % name.split(":")[0]
+                    ctx.viol(mech, {"base": prev_u, "variant": uv, "transformation": name, "options": oname}, {"out_base": ob, "out_variant": ov})
                 prev_ok = False
             else:
                 prev_ok = True
             prev_u = uv
             if uv != base_url:
                 ctx.nontrivial((base_url, uv, oname))
+
+
+def hint_read_differently(a, b):
+    from ural.infer_redirection import infer_redirection as IR
+    import re as _re
+
+    def resolves(u):
+        u = _re.sub(r"[\x00-\x1f\x7f-\x9f]", "", u).strip()
+        try:
+            return IR(u) != u
+        except Exception:
+            return False
+    return resolves(a) != resolves(b)
 
 
 # platform URLs whose platform-aware form differs from the generic one, and the variations that keep them on the platform
@@ -373,6 +390,13 @@ def run(ctx):
                     ctx.count("stacked-markers")
             for u in REDIRECTS:
                 redirect_law(u)
+            # documented-irrelevant variations applied to the CARRIER part of a redirecting url
+            for a, b, nm in (("http://a.com/r?x=1&url=http%3A%2F%2Fb.org%2Fp", "http://a.com/r?x=1&amp;url=http%3A%2F%2Fb.org%2Fp", "amp-entity"),
+                             ("http://a.com/r?url=http%3A%2F%2Fb.org%2Fp&x=1", "http://a.com/r?%75rl=http%3A%2F%2Fb.org%2Fp&x=1", "escape"),
+                             ("http://a.com/r?url=http%3A%2F%2Fb.org%2Fp&x=1", "HTTP://A.com:80/r?url=http%3A%2F%2Fb.org%2Fp&x=1#frag", "host-case"),
+                             ("http://a.com/r?x=1&url=http%3A%2F%2Fb.org%2Fp", "http://a.com/r?utm_source=z&url=http%3A%2F%2Fb.org%2Fp&x=1", "tracking")):
+                check_chain(ctx, fn, a, [(nm, b)], OPTSETS)
+                ctx.count("variation-of-the-carrier-of-a-redirect")
             for u in ("http://example.com/x?si=abc&t=42&ab_channel=z&_rdr=1&cbrd=1", "http://example.org/?t=42", "https://www.youtube.com/results?search_query=cats&t=42&si=abc", "https://www.facebook.com/x/y?_rdr=1&si=abc"):
                 norm(fn, u, {})  # per-domain items on and off their domain: remembered for the history-independence pass
             # per-domain items composed with the host spellings that must not matter (case, default port, userinfo, marker)
